@@ -14,7 +14,7 @@ from dataclasses import dataclass
 from urllib.parse import urlparse
 
 from ..codec import CodecRegistry
-from ..store import Store, current_timestamp
+from ..store import Store, current_timestamp, path_segments
 from ..structures import CodecProtocol, ProtocolRef, FileCodecProtocol, DDSException
 from ..structures import PyHash, DDSPath, GenericLocation, SupportedType as ST
 from ..structures_utils import SupportedTypeUtils as STU
@@ -40,8 +40,8 @@ class DBFSURI:
                 raise NotImplementedError(
                     f"Cannot join path for {self}: {type(seg)}: {seg}"
                 )
-            if s.startswith("."):
-                s = s[1:]
+            if s.startswith("./"):
+                s = s[2:]
             if s.startswith("/"):
                 s = s[1:]
             if not uri.endswith("/"):
@@ -232,7 +232,7 @@ class DBFSStore(Store):
         for (dds_p, key) in paths.items():
             # Look for the redirection file associated to this file
             # The paths are /_dds_meta/path
-            redir_p = Path("_dds_meta/").joinpath("./" + dds_p)
+            redir_p = Path("_dds_meta/").joinpath(*path_segments(dds_p))
             redir_path = self._physical_path(redir_p)
             # Try to read the redirection information:
             _logger.debug(
@@ -255,7 +255,7 @@ class DBFSStore(Store):
                     f"Path {dds_p} needs update (registered key {redir_key} != {key})"
                 )
                 blob_path = self._blob_path(key)
-                obj_path = self._physical_path(Path("./" + dds_p))
+                obj_path = self._physical_path(Path(*path_segments(dds_p)))
                 if self._commit_type == CommitType.FULL:
                     _logger.debug(f"Copying {blob_path} -> {obj_path}")
                     # Optimization for the files saved with Spark: use spark to read and write.
@@ -294,7 +294,7 @@ class DBFSStore(Store):
             # TODO: this is the same code as sync_path, factorize
             # Look for the redirection file associated to this file
             # The paths are /_dds_meta/path
-            redir_p = Path("_dds_meta/").joinpath("./" + dds_p)
+            redir_p = Path("_dds_meta/").joinpath(*path_segments(dds_p))
             redir_path = self._physical_path(redir_p)
             # Try to read the redirection information:
             _logger.debug(
